@@ -422,6 +422,12 @@ class Evaluator:
                 r_ = self.ctx.p.resolve_name(f.module, e.id)
                 if r_ is not None and r_[0] == "class":
                     return ("class", r_[1])        # a class used as a value (passed on, called later)
+                if r_ is not None and r_[0] == "const" and e.id not in r_[1].multi_assigned and e.id not in r_[1].globals_mutated:
+                    # a module constant given by an expression (len(OTHER), A + str(B), ...): evaluate it in its module
+                    m_ = r_[1]
+                    host = next(iter(m_.funcs.values()), None) or next((g for c in m_.classes.values() for g in c.methods.values()), None)
+                    if host is not None:
+                        return self.expr(r_[2], {}, host, depth + 1)
                 raise AnalysisError("name %s is not bound for the table extractor (%s)" % (e.id, f.loc(e)))
         if isinstance(e, ast.Attribute):
             k = ast.unparse(e)
